@@ -1,0 +1,30 @@
+//go:build verif
+
+// Write-ordering contracts for crash durability (property C03); only compiled with -tags verif.
+// `order L: A before B` is checked at the typestate level (control flow only): every execution of event B is preceded,
+// on every path, by an execution of event A that returned a nil error.
+package store
+
+// Synced mode: the transaction log (and before it every value log) is flushed and fsynced before any commit-log entry
+// is appended; precommit durability is acknowledged only after the tx-log fsync; the commit frontier moves and commits
+// are acknowledged only after the commit-log fsync.
+//@ func (*ImmuStore).sync
+//@   order txlog_flushed_before_sync: s.txLog.Flush before s.txLog.Sync
+//@   order txlog_synced_before_clog_append: s.txLog.Sync before s.cLog.Append
+//@   order txlog_synced_before_clog_rewind: s.txLog.Sync before s.cLog.SetOffset
+//@   order txlog_synced_before_durable_ack: s.txLog.Sync before s.durablePrecommitWHub.DoneUpto
+//@   order clog_flushed_before_sync: s.cLog.Flush before s.cLog.Sync
+//@   order clog_synced_before_frontier: s.cLog.Sync before store s.committedTxID
+//@   order clog_synced_before_commit_ack: s.cLog.Sync before s.commitWHub.DoneUpto
+
+// The per-value-log closure of sync(): a value log is flushed before it is fsynced, and the closure reports success
+// only after the fsync succeeded (sync() returns the closure's error before touching the tx log).
+//@ func (*ImmuStore).sync$1
+//@   order vlog_flushed_before_sync: vLog.Flush before vLog.Sync
+//@   order vlog_synced_before_ok: vLog.Sync before return nil
+
+// commit(): the caller gets a nil error (the acknowledgement) only after the commit watcher reported the transaction
+// as committed, which in synced mode happens in sync() after the commit-log fsync (rule clog_synced_before_commit_ack).
+//@ func (*ImmuStore).commit
+//@   order precommit_before_wait: s.precommit before s.commitWHub.WaitFor
+//@   order commit_wait_before_ack: s.commitWHub.WaitFor before return nil
